@@ -69,6 +69,7 @@ class ParallelAction : public AssembleAction {
 
     void onChildFinished(int index, bool is_succ);
     void onChildBlocked(int index, const Reason &why, const Trace &trace);
+    bool finishIfDone();
 
   private:
     Mode mode_;
